@@ -83,6 +83,34 @@ def run(rep, tier, seed):
                           {"kind": "witness", "element": e, "word": W[e]["word"], "content_class": W[e]["content"]})
         Node.store.clear()
     rep.notes["witness_trees_validated_both_modes"] = nW
+    # closure on the code: whatever single-node validation lets pass as a child, whole-tree validation must be able to accept.
+    # Every element's witness gets one child with a name that is not a known element: either the node itself objects to the
+    # child, or the tree walk does not object to it either (the element named metadata: content not looked at).
+    nP = 0
+    for e in sorted(W):
+        for where in ("last", "first"):
+            try:
+                t = build(e)
+            except Exception:  # noqa: BLE001 - reported above
+                break
+            probe = Node("zzNotAKnownElement")
+            t.add_child(probe, index=None if where == "last" else 0)
+            nerrs, terrs = [], []
+            try:
+                validate.node(t, nerrs)
+                validate.tree(t, terrs)
+            except Exception as ex:  # noqa: BLE001 - totality is C04's business
+                Node.store.clear()
+                continue
+            nP += 1
+            node_objects = any(x[0].name in ("CHILD_NOT_ALLOWED", "MAX_OCCURRENCE_EXCEEDED", "MIN_OCCURRENCE_UNMET", "MIN_CHOICE_UNMET", "MAX_CHOICE_EXCEEDED") for x in nerrs)
+            tree_objects = [x[0].name for x in terrs if len(x) > 2 and x[2] is probe]
+            if not node_objects and tree_objects:
+                rep.violation(f"{PID}:node-allows-what-tree-cannot-accept:{e}",
+                              f"validate.node({e}) raises no objection to a child named zzNotAKnownElement ({where}), validate.tree reports {tree_objects} for that child",
+                              {"kind": "closure-probe", "element": e, "position": where})
+            Node.store.clear()
+    rep.notes["closure_probes"] = nP
     # the loader and the rule objects expose exactly the file's declarations
     if loaded != rules:
         diff = sorted(set(loaded) ^ set(rules)) or [k for k in rules if rules[k] != loaded.get(k)][:5]
